@@ -26,7 +26,7 @@ IMPORTS = {
 
 
 def run(ctx, chk):
-    fb = ctx.facts('dev')
+    fb = ctx.facts()
     chk.explanation = ('Composition clauses only. W1: each field of every published record resolves, across handlers, the message '
                        'channel and the thread hop, to its intended source (as_of <- the poller\'s pre-query monotonic read; bound <- '
                        'formula(report) + PHC; drift <- CLI value; status <- FSM; void_after <- as_of + 1000 s). W2: same monotonic '
